@@ -43,6 +43,9 @@ func usage() {
 // solveAll discharges obligations in parallel.
 func solveAll(obs []*Obligation, tier string, par int) {
 	quickT, thoroughT := 10, 60
+	if p := os.Getenv("GOVC_PAR"); p != "" {
+		fmt.Sscanf(p, "%d", &par)
+	}
 	var wg sync.WaitGroup
 	sem := make(chan struct{}, par)
 	for _, o := range obs {
@@ -62,7 +65,7 @@ func solveAll(obs []*Obligation, tier string, par int) {
 				}
 			}
 			if o.Cover {
-				v := Solve(o.Query(false), 5, false, []string{"z3-new"})
+				v := Solve(o.QueryOpt(false, true), 5, false, []string{"z3-new"})
 				o.Verdict = v
 				switch v.Result {
 				case "sat":
@@ -73,6 +76,19 @@ func solveAll(obs []*Obligation, tier string, par int) {
 					o.Status = "cover-unknown"
 				}
 				return
+			}
+			if o.HasQFacts() && o.Kind != "ensures" && o.Kind != "lemma" {
+				lt := 4
+				if o.Kind == "inv-preserved" || o.Kind == "inv-entry" {
+					lt = 2
+				}
+				lv := Solve(o.QueryOpt(false, true), lt, false, o.Backends)
+				if lv.Result == "unsat" {
+					lv.Backend += "(light)"
+					o.Verdict = lv
+					o.Status = "discharged"
+					return
+				}
 			}
 			v := Solve(o.Query(true), t, tier == "thorough" && os.Getenv("GOVC_CROSS") != "", o.Backends)
 			o.Verdict = v
@@ -142,7 +158,7 @@ func cmdFunc(args []string) int {
 		}
 	}
 	start := time.Now()
-	solveAll(all, *tier, 16)
+	solveAll(all, *tier, 8)
 	bad := 0
 	for _, r := range reps {
 		fmt.Printf("== %s (%s, mode %s) %d obligations\n", r.Name, r.Kind, r.Mode, len(r.Obligs))
